@@ -136,6 +136,14 @@ def run_optprobe(case):
     res = D.decode(fmt, data, args)
     cl = observe.classify(fmt, res)
     refused_by_parser = res["status"] == "exit" and res.get("code") == 2
+    if case.get("overask"):
+        # a geometry that asks for more than the file holds: a valid option value, an inconsistent request - the decoder may
+        # fail (and say so) or produce a complete image of what it announces, but not a header with too few samples behind it
+        obs["counters"]["overask_probes"] = 1
+        if cl["kind"] in ("incomplete", "garbage"):
+            obs["viols"].append({"sig": "C18/%s/geometry-beyond-the-data/incomplete-image" % fmt,
+                                 "detail": {"args": args, "status": res["status"], "outcome": {k: v for k, v in cl.items() if k not in ("img", "png")}}})
+        return obs
     if not refused_by_parser and cl["kind"] != "complete":
         obs["viols"].append({"sig": "C18/%s/option-value-accepted-without-image" % fmt,
                              "detail": {"args": args, "status": res["status"], "exc": res.get("exc"), "outcome": cl["kind"]}})
@@ -149,8 +157,8 @@ def run_case(case):
     fmt = case["fmt"]
     obs = {"counters": {"decodes": 1}, "viols": [], "sets": {"formats": [fmt]}}
     data, args, size, skip = build(case)
-    obs["key"] = "%s|%s|%s|%s|%s" % (fmt, size, " ".join(args), case.get("content"), str(case.get("preset")) + ("+stretch" if case.get("stretch") else "") + ("+highbits" if case.get("highbits") else "") + ("+esc%d" % case["escape"] if case.get("escape") is not None else ""))
-    res = D.decode(fmt, data, args)
+    obs["key"] = "%s|%s|%s|%s|%s" % (fmt, size, " ".join(args), case.get("content"), str(case.get("preset")) + ("+stretch" if case.get("stretch") else "") + ("+highbits" if case.get("highbits") else "") + ("+esc%d" % case["escape"] if case.get("escape") is not None else "") + ("+ext%s" % case["in_ext"] if case.get("in_ext") is not None else ""))
+    res = D.decode(fmt, data, args, in_ext=case.get("in_ext"))
     cl = observe.classify(fmt, res)
     detail = {"case": case, "args": args, "input_bytes": len(data), "expected_size": size}
     obs["counters"]["size_checks"] = 1
@@ -225,6 +233,10 @@ def cases(tier, seed):
         for opt in ("-w", "-r"):
             for v in ("0", "-1", "-8", "1.5", "", "x", "-0"):
                 yield {"fmt": fmt, "optprobe": True, "drop": [opt], "extra": [opt, v]}
+        for opt, vals in (("-r", ("4", "5", "100", "193", "1000")), ("-w", ("24", "32", "512", "1024"))):
+            for v in vals:
+                yield {"fmt": fmt, "optprobe": True, "overask": True, "drop": [opt], "extra": [opt, v]}
+        yield {"fmt": fmt, "optprobe": True, "overask": True, "drop": ["-w", "-r"], "extra": ["-w", "128", "-r", "400"]}
     # -s N on a real pipe (a pipe cannot seek)
     for skip in (1, 7, 300):
         yield c(fmt="hrs", w=12, h=3, skip=skip, pipes=True)
@@ -247,6 +259,12 @@ def cases(tier, seed):
     for mode in modes:
         yield c(fmt="max", cols=256, rows=4, how="length", mode=mode, pipes=(mode == "bw"))
         yield c(fmt="max", cols=16, rows=3, how="rows", mode=mode, skip=9)
+    # what the input file is called is no part of its format: no extension, a dot, other extensions, upper case
+    for ext in ("", ".", ".a", ".ar", ".pic", ".bin", ".MAX", ".max.bak"):
+        yield c(fmt="max", cols=256, rows=4, how="length", mode="bw", in_ext=ext)
+        yield c(fmt="hrs", w=32, h=3, in_ext=ext)
+        yield c(fmt="mge", rgb=True, comp=True, in_ext=ext)
+        yield c(fmt="rat", in_ext=ext)
     for skip in range(0, 21):
         yield c(fmt="max", cols=16, rows=2, how="length", mode="bw", skip=skip)
         # every header variant combined with -s (the skip must happen before whichever header is read)
